@@ -36,7 +36,7 @@ def cases(tier, seed):
                     out.append({"what": "stack", "kind": kind, "n": n, "m": m, "tiers": t})
     frames = sorted({0, 4, 1 + seed % 7}) if tier == "quick" else list(range(len(FRAMES)))
     for fr in frames:
-        for shape in ("Cylinder", "SemiCylinder", "Frustum", "Elbow", "ExtrudedRing", "Hemisphere", "OneCoreDisk", "FourCoreDisk", "HalfDisk", "Oval", "WrappedDisk"):
+        for shape in ("Cylinder", "SemiCylinder", "Frustum", "Elbow", "ExtrudedRing", "Hemisphere", "OneCoreDisk", "FourCoreDisk", "HalfDisk", "Oval", "WrappedDisk", "QuarterDisk", "QuarterSplineDisk", "HalfSplineDisk", "SplineDisk", "SplineDisk_circular"):
             out.append({"what": "round", "shape": shape, "frame": fr})
     for n, m, t in ((2, 3, 2), (3, 1, 1), (1, 1, 3)):
         out.append({"what": "delete", "n": n, "m": m, "tiers": t})
@@ -188,6 +188,14 @@ def run_round(case):
             sketch = cb.HalfDisk(P([0, 0, 0]), P([0.8, 0, 0]), Vv([0, 0, 1]))
         elif name == "Oval":
             sketch = cb.Oval(P([0, 0, 0]), P([0, 1.0, 0]), Vv([0, 0, 1]), 0.5)
+        elif name == "QuarterDisk":
+            from classy_blocks.construct.flat.sketches.disk import QuarterDisk
+
+            sketch = QuarterDisk(P([0, 0, 0]), P([0.8, 0, 0]), Vv([0, 0, 1]))
+        elif name in ("QuarterSplineDisk", "HalfSplineDisk", "SplineDisk"):
+            sketch = getattr(cb, name)(P([0, 0, 0]), P([1, 0, 0]), P([0, 1.2, 0]), 0.2, 0.3)
+        elif name == "SplineDisk_circular":
+            sketch = cb.SplineDisk(P([0, 0, 0]), P([1, 0, 0]), P([0, 1.0, 0]), 0.0, 0.0)
         else:
             sketch = cb.WrappedDisk(P([0, 0, 0]), P([1.0, 1.0, 0]), 0.5, Vv([0, 0, 1]))
 
@@ -263,10 +271,29 @@ def run_round(case):
                 return np.linalg.norm(p - c)
 
             R = 0.5 if name == "WrappedDisk" else 0.8
+        # outline of the sketch from the faces alone: edges owned by one face; those on a line through the centre are
+        # the straight cuts of quarter/half sketches, the others are the outer curve
+        def ekey(a, b):
+            return frozenset((tuple(np.round(a, 7)), tuple(np.round(b, 7))))
+
+        owners = {}
+        for f in faces:
+            P4 = f.point_array
+            for i in range(4):
+                owners[ekey(P4[i], P4[(i + 1) % 4])] = owners.get(ekey(P4[i], P4[(i + 1) % 4]), 0) + 1
+        centre0 = P([0, 0, 0])
+
+        def outer_edge(a, b):
+            if owners[ekey(a, b)] != 1:
+                return False
+            return np.linalg.norm(np.cross(a - centre0, b - centre0)) > 1e-9
+
         for f in faces:
             P4 = f.point_array
             on = [abs(rad(p) - R) < 1e-6 for p in P4]
             touches = any(on[i] and on[(i + 1) % 4] for i in range(4))
+            if "Spline" in name or name == "QuarterDisk":
+                touches = any(outer_edge(P4[i], P4[(i + 1) % 4]) for i in range(4))
             in_shell = any(f is s for s in shell)
             in_core = any(f is s for s in core)
             if name == "WrappedDisk":
@@ -311,17 +338,25 @@ def run_delete(case):
         mesh.add(e)
         mesh.delete(op)
         path = os.path.join(runner.scratch_dir(), f"c19_{os.getpid()}")
-        try:
-            mesh.write(path)
-        except Exception as err:
-            violations.append({"clause": "delete-write-raised", "coords": dict(case, kind=kind, index=list(idx) if isinstance(idx, tuple) else idx), "detail": f"{type(err).__name__}: {err}"})
-            continue
-        d = foamdict.parse(open(path).read())
-        blocks = [sorted(tuple(round(x, 6) for x in d["vertices"][v]["pos"]) for v in b["v"]) for b in d["blocks"]]
         all_cells = [sorted(map(tuple, np.round(o.point_array, 6))) for o in e.operations]
         want = [c for c in all_cells if c != corners]
-        if sorted(blocks) != sorted(want):
-            violations.append({"clause": "delete-removed-other-block", "coords": dict(case, kind=kind, index=list(idx) if isinstance(idx, tuple) else idx), "detail": f"{len(blocks)} blocks written, {len(want)} expected; deleted cell still present: {corners in blocks}"})
+        # the deletion holds for every later assembly of the same mesh as well
+        for after in ("write", "write again", "clear + write", "backport + write"):
+            co = dict(case, kind=kind, index=list(idx) if isinstance(idx, tuple) else idx, after=after)
+            try:
+                if after == "clear + write":
+                    mesh.clear()
+                elif after == "backport + write":
+                    mesh.backport()
+                mesh.write(path)
+            except Exception as err:
+                violations.append({"clause": "delete-write-raised", "coords": co, "detail": f"{type(err).__name__}: {err}"})
+                break
+            d = foamdict.parse(open(path).read())
+            blocks = [sorted(tuple(round(x, 6) for x in d["vertices"][v]["pos"]) for v in b["v"]) for b in d["blocks"]]
+            if sorted(blocks) != sorted(want):
+                violations.append({"clause": "delete-removed-other-block", "coords": co, "detail": f"{len(blocks)} blocks written, {len(want)} expected; deleted cell still present: {corners in blocks}"})
+                break
     return violations, execs
 
 
